@@ -43,7 +43,16 @@ type Obs struct {
 	counts     map[string]int
 	known      map[string]int // known-finding signatures met inside the case (case continues)
 	note       string
+	evals      int // sub-evaluations (e.g. cut points) this case stands for; 0 = one
+	subNT      int // number of distinct non-trivial sub-evaluations inside the case
 }
+
+// Evals declares that the case consisted of n evaluations (fault enumeration: n cut points).
+func (o *Obs) Evals(n int) { o.evals += n }
+
+// NonTrivialSubs declares n distinct non-trivial sub-evaluations inside this case (each counts
+// towards distinct_nontrivial, keyed by case and ordinal).
+func (o *Obs) NonTrivialSubs(n int) { o.subNT += n; o.nontrivial = o.nontrivial || n > 0 }
 
 func (o *Obs) Class(name string) { o.classes = append(o.classes, name) }
 func (o *Obs) NonTrivial()       { o.nontrivial = true }
@@ -100,7 +109,7 @@ type shardOut struct {
 var (
 	mu      sync.Mutex
 	out     shardOut
-	hashes  = map[uint64]struct{}{}
+	hashes  = map[uint64]int{} // distinct non-trivial case hash -> weight (sub-evaluations it stands for)
 	perCls  = map[string]int{} // samples kept per class
 	known   = map[string]string{}
 	started bool
@@ -201,8 +210,12 @@ func flush() {
 	mu.Lock()
 	defer mu.Unlock()
 	out.Hashes = out.Hashes[:0]
-	for h := range hashes {
-		out.Hashes = append(out.Hashes, strconv.FormatUint(h, 16))
+	for h, w := range hashes {
+		if w == 1 {
+			out.Hashes = append(out.Hashes, strconv.FormatUint(h, 16))
+		} else {
+			out.Hashes = append(out.Hashes, strconv.FormatUint(h, 16)+"*"+strconv.Itoa(w))
+		}
 	}
 	sort.Strings(out.Hashes)
 	p := os.Getenv("VERIF_OUT")
@@ -234,6 +247,10 @@ type Spec[C any] struct {
 	Sample func(C) any
 	// Repeat > 1 re-executes every replay/regression case that many times (nondeterministic oracles).
 	Repeat int
+	// Deadline > 0 runs every case under a watchdog: a case that does not return within the
+	// deadline (several orders of magnitude above its normal cost) is reported with signature
+	// "hang". The stuck goroutine is abandoned.
+	Deadline time.Duration
 }
 
 func hash64(b []byte) uint64 { h := fnv.New64a(); h.Write(b); return h.Sum64() }
@@ -250,6 +267,28 @@ func sub(name string) *subStats {
 // exec runs one case, turning an uncaught panic into a Failure (an oracle that accepts panics
 // must recover them itself).
 func exec[C any](s Spec[C], c C, o *Obs) (f *Failure) {
+	if s.Deadline <= 0 {
+		return execDirect(s, c, o)
+	}
+	type res struct {
+		f *Failure
+		o *Obs
+	}
+	done := make(chan res, 1)
+	go func() {
+		po := &Obs{}
+		done <- res{execDirect(s, c, po), po}
+	}()
+	select {
+	case r := <-done:
+		*o = *r.o
+		return r.f
+	case <-time.After(s.Deadline):
+		return Failf("hang", "case did not return within %v (normal cost is milliseconds); the call does not terminate", s.Deadline)
+	}
+}
+
+func execDirect[C any](s Spec[C], c C, o *Obs) (f *Failure) {
 	defer func() {
 		if r := recover(); r != nil {
 			st := string(debug.Stack())
@@ -283,7 +322,11 @@ func record[C any](s Spec[C], c C, o *Obs, countIt bool) {
 		return
 	}
 	st := sub(s.Name)
-	st.Evaluations++
+	if o.evals > 0 {
+		st.Evaluations += o.evals
+	} else {
+		st.Evaluations++
+	}
 	for _, cl := range o.classes {
 		st.Classes[cl]++
 	}
@@ -301,7 +344,14 @@ func record[C any](s Spec[C], c C, o *Obs, countIt bool) {
 		b, _ := json.Marshal(c)
 		key = append([]byte(s.Name+"|"), b...)
 	}
-	hashes[hash64(key)] = struct{}{}
+	w := 1
+	if o.subNT > 0 {
+		w = o.subNT
+		st.NonTrivial += o.subNT - 1
+	}
+	if hashes[hash64(key)] < w {
+		hashes[hash64(key)] = w
+	}
 	// keep up to two samples per first class, at most 12 per shard
 	cl := "-"
 	if len(o.classes) > 0 {
